@@ -1,4 +1,5 @@
 import PdshVerif.Dshbak.Model
+import PdshVerif.Dshbak.LineLemmas
 
 /-!
 The option part of scripts/dshbak (`getopts ("chfd:")` and the block "Process args") and
@@ -76,5 +77,42 @@ def perFileWrites (dir : Str) (ks : List Str) (m : Tab) : List (Str × List Str)
 
 theorem filePath_inj (dir t₁ t₂ : Str) (h : filePath dir t₁ = filePath dir t₂) : t₁ = t₂ := by
   simpa [filePath] using h
+
+/-- `while (<>)` over FILE ARGUMENTS: the lines of every file in turn; a file's last line may lack its newline
+(Perl does not join it with the first line of the next file) -/
+def readFiles (files : List Str) : List (Str × Bool) := files.flatMap readLines
+
+theorem processStep_flag (m : Tab) (l : Str × Bool) : processStep true m l = processStep true m (l.1, true) := by
+  simp [processStep, matchLine]
+
+/-- after the repair of D21 the newline flag of a line plays no role -/
+theorem processLines_flags (ls : List (Str × Bool)) :
+    processLines true ls = processLines true (ls.map fun l => (l.1, true)) := by
+  unfold processLines
+  generalize ([] : Tab) = m
+  induction ls generalizing m with
+  | nil => rfl
+  | cons l ls ih =>
+    simp only [List.foldl_cons, List.map_cons]
+    rw [processStep_flag m l]
+    exact ih _
+
+/-- a file's text: newline-terminated lines and a possibly empty unterminated rest -/
+def fileText (f : List Str × Str) : Str := f.1.flatMap (· ++ ['\n']) ++ f.2
+
+def fileLines (f : List Str × Str) : List Str := f.1 ++ (if f.2.isEmpty then [] else [f.2])
+
+theorem readFiles_lines : ∀ (fsx : List (List Str × Str)),
+    (∀ f ∈ fsx, (∀ l ∈ f.1, '\n' ∉ l) ∧ '\n' ∉ f.2) →
+    (readFiles (fsx.map fileText)).map (fun l => (l.1, true)) = (fsx.flatMap fileLines).map (·, true)
+  | [], _ => rfl
+  | f :: fsx, h => by
+    have ih := readFiles_lines fsx fun g hg => h g (by simp [hg])
+    have hf := h f (by simp)
+    unfold readFiles at ih ⊢
+    simp only [List.map_cons, List.flatMap_cons, List.map_append, ih]
+    congr 1
+    rw [fileText, readLines_lines f.1 hf.1 f.2 hf.2, fileLines]
+    by_cases he : f.2.isEmpty <;> simp [he, List.map_map, Function.comp_def]
 
 end PdshVerif.Dshbak
